@@ -41,6 +41,29 @@ type Script struct {
 	Clients []Client `json:"clients"`
 	Steps   []Step   `json:"steps"`
 	Free    bool     `json:"free"` // free-running: one goroutine per client, no barriers between steps
+	// SyncConnect: before the steps run, every client starts its handshake, holds back its last flight until all
+	// are that far, and then all release at once: the handshakes complete on the server at the same instant
+	SyncConnect bool `json:"sync_connect,omitempty"`
+	SyncRounds  int  `json:"sync_rounds,omitempty"` // that many times: connect all at once, one request each, disconnect all
+}
+
+// gateConn lets the first write (the ClientHello) through and holds every later write until the gate opens.
+type gateConn struct {
+	net.Conn
+	mu     sync.Mutex
+	writes int
+	gate   chan struct{}
+}
+
+func (g *gateConn) Write(b []byte) (int, error) {
+	g.mu.Lock()
+	g.writes++
+	n := g.writes
+	g.mu.Unlock()
+	if n > 1 {
+		<-g.gate
+	}
+	return g.Conn.Write(b)
 }
 
 var col = vstat.New("C06", "c06.attribution")
@@ -92,6 +115,10 @@ func gen(t *rapid.T) Script {
 		}
 	}
 	s.Free = rapid.IntRange(0, 2).Draw(t, "free") == 0
+	s.SyncConnect = rapid.IntRange(0, 2).Draw(t, "sync") == 0
+	if s.SyncConnect {
+		s.SyncRounds = rapid.IntRange(1, 16).Draw(t, "syncRounds")
+	}
 	return s
 }
 
@@ -128,6 +155,7 @@ func exec(t *testing.T, s Script) *vstat.Violation {
 			states[i] = &clientState{}
 		}
 		open := 0
+		var gate chan struct{} // non-nil while the synchronised connect phase runs
 		doStep := func(st Step) {
 			cs := states[st.Client]
 			cl := s.Clients[st.Client]
@@ -156,7 +184,12 @@ func exec(t *testing.T, s Script) *vstat.Violation {
 					cs.failure = err.Error()
 					return
 				}
-				c, err := rig.Handshake(raw, rig.ClientOpts{Spec: &spec})
+				var c *rig.TLSClient
+				if gate != nil {
+					c, err = rig.HandshakeVia(raw, &gateConn{Conn: raw, gate: gate}, rig.ClientOpts{Spec: &spec})
+				} else {
+					c, err = rig.Handshake(raw, rig.ClientOpts{Spec: &spec})
+				}
 				if err != nil {
 					raw.Close()
 					cs.failure = "handshake: " + err.Error()
@@ -245,6 +278,38 @@ func exec(t *testing.T, s Script) *vstat.Violation {
 					mu.Unlock()
 				}
 			}
+		}
+		for round := 0; s.SyncConnect && round < max(1, s.SyncRounds); round++ {
+			gate = make(chan struct{})
+			var cwg sync.WaitGroup
+			for i := range s.Clients {
+				cwg.Add(1)
+				go func(i int) {
+					defer cwg.Done()
+					doStep(Step{Op: "connect", Client: i})
+				}(i)
+			}
+			rig.Wait() // every client has sent its hello, read the server's flight and is held at the gate
+			close(gate)
+			cwg.Wait()
+			gate = nil
+			rig.Wait()
+			if round == max(1, s.SyncRounds)-1 {
+				break // the scripted steps go on with these connections
+			}
+			free := s.Free
+			s.Free = true // (requests of this phase wait for their own response, not for quiescence)
+			for i := range s.Clients {
+				cwg.Add(1)
+				go func(i int) {
+					defer cwg.Done()
+					doStep(Step{Op: "request", Client: i, N: 1})
+					doStep(Step{Op: "disconnect", Client: i})
+				}(i)
+			}
+			cwg.Wait()
+			s.Free = free
+			rig.Wait()
 		}
 		if s.Free {
 			var wg sync.WaitGroup
@@ -353,6 +418,9 @@ func exec(t *testing.T, s Script) *vstat.Violation {
 	if reconnect && sameAddr {
 		cl = append(cl, "reconnect-from-the-same-ip:port")
 	}
+	if s.SyncConnect {
+		cl = append(cl, "handshakes-complete-at-the-same-instant")
+	}
 	nt := overlap && protos["h2"] && (protos["http/1.1"] || protos[""])
 	col.Case(fmt.Sprintf("%+v", s), nt, map[string]any{"clients": len(s.Clients), "steps": len(s.Steps), "free": s.Free, "requests": len(reqs), "classes": cl}, cl...)
 	return nil
@@ -360,6 +428,6 @@ func exec(t *testing.T, s Script) *vstat.Violation {
 
 func TestAttribution(t *testing.T) {
 	rig.Certs()
-	col.Mandatory("free-running:true", "free-running:false", "overlapping-lifetimes", "proto:h2", "proto:http/1.1", "reconnect-with-different-hello", "reconnect-from-the-same-ip:port")
-	vstat.Run(t, vstat.Spec[Script]{Col: col, Quick: 400, Thorough: 10000, Gen: gen, ScheduleDependent: true, Exec: func(s Script) *vstat.Violation { return exec(t, s) }})
+	col.Mandatory("free-running:true", "free-running:false", "overlapping-lifetimes", "proto:h2", "proto:http/1.1", "reconnect-with-different-hello", "reconnect-from-the-same-ip:port", "handshakes-complete-at-the-same-instant")
+	vstat.Run(t, vstat.Spec[Script]{Col: col, Quick: 900, Thorough: 12000, Gen: gen, ScheduleDependent: true, Exec: func(s Script) *vstat.Violation { return exec(t, s) }})
 }
